@@ -20,7 +20,7 @@ func init() {
 	register(&propDef{
 		ID: "C09",
 		Meta: propMeta{
-			Explanation: "Decides structural necessary conditions (nothing is executed): (R09a) in every function reachable from a Transformer.GetReader implementation, each sequential read of the source file (the file handed to a callee as an io.Reader, returned as the upload stream, or read directly) is preceded on every path — since function entry, since the previous sequential read and since any seek-to-end — by a Seek with whence 0 on that same file, so that the stream is the same on every call; implementations that only use ReadAt need nothing; (R09b) remotecmd.doRequest builds a fresh request (and through buildRequest obtains a fresh body from GetReader) inside the failover loop and sends exactly that request; the 406 fallback and every retry go through the same construction; (R09c) codec tables agree: the encodings setupCompression can produce are exactly those decompress can read, every preference key is among them, and the advertised Accept-Encoding list is exactly the preference keys; (R09d) header and body agree: wherever a Content-Encoding header is set, the value is the very value handed to the compressor for that body; (R09e) each zip-based server-side signer reads its input once, through zipslicer.ReadZipTar on the request stream; (R09f) where a transformer slurps a non-seekable source through io.LimitReader with a constant cap, a length test that the capped result can satisfy follows (no silent truncation of what is uploaded); (R09g) the reader wrapped by compresshttp.readBlocker is touched only by its Read method behind the closed-flag test and by Close, so an abandoned attempt's compressor cannot keep reading the shared source. (R09h) in doRequest a plain Close of the request body lies on every path from Do to the block that builds the next attempt (a deferred Close runs only when the function returns, so an abandoned attempt would go on reading the shared file); (R09i) no deferred function assigns to a named error result a value that may be nil without testing it or the result first, module-wide; (R09j) the loop of blockMap.AddFile that reads an appx member leaves towards the success return only on the io.EOF edge.",
+			Explanation: "Decides structural necessary conditions (nothing is executed): (R09a) in every function reachable from a Transformer.GetReader implementation, each sequential read of the source file (the file handed to a callee as an io.Reader, returned as the upload stream, or read directly) is preceded on every path — since function entry, since the previous sequential read and since any seek-to-end — by a Seek with whence 0 on that same file, so that the stream is the same on every call; implementations that only use ReadAt need nothing; (R09b) remotecmd.doRequest builds a fresh request (and through buildRequest obtains a fresh body from GetReader) inside the failover loop and sends exactly that request; the 406 fallback and every retry go through the same construction; (R09c) codec tables agree: the encodings setupCompression can produce are exactly those decompress can read, every preference key is among them, and the advertised Accept-Encoding list is exactly the preference keys; (R09d) header and body agree: wherever a Content-Encoding header is set, the value is the very value handed to the compressor for that body; (R09e) each zip-based server-side signer reads its input once, through zipslicer.ReadZipTar on the request stream; (R09f) where a transformer slurps a non-seekable source through io.LimitReader with a constant cap, a length test that the capped result can satisfy follows (no silent truncation of what is uploaded); (R09g) the reader wrapped by compresshttp.readBlocker is touched only by its Read method behind the closed-flag test and by Close, so an abandoned attempt's compressor cannot keep reading the shared source. (R09h) in doRequest a plain Close of the request body lies on every path from Do to the block that builds the next attempt (a deferred Close runs only when the function returns, so an abandoned attempt would go on reading the shared file); (R09i) no deferred function assigns to a named error result a value that may be nil without testing it or the result first, module-wide; (R09j) the loop of blockMap.AddFile that reads an appx member leaves towards the success return only on the io.EOF edge. (R09k) every function stored into http.Request.GetBody returns a reader made inside it, not a captured reader value, so a replay by the HTTP stack sends the whole body again.",
 			NotDecided:  "independence of the block hashers (APK merkle, appx block map, PE page hashes) from Write sizes; equality of the digest computed from the tar stream and from the patched file; correctness of gzip/snappy; that a second GetReader call does not race with a still-running producer goroutine of the first.",
 			Assumptions: []string{"os.File.Seek(0, io.SeekStart) repositions reliably", "net/http sends the body it is given once"},
 		},
@@ -543,6 +543,47 @@ func c09CappedReads(c *Ctx) {
 	n := 0
 	for fn := range p.moduleReachOpt(roots, false) {
 		for _, ci := range p.callsIn(fn, "io.ReadAll", "io/ioutil.ReadAll") {
+			// the other spelling of a cap: ReadAll(&io.LimitedReader{R: src, N: cap}); what is left of N says
+			// whether the cap was reached (it goes down to 0, never below)
+			if mi, ok := ci.Common().Args[0].(*ssa.MakeInterface); ok {
+				if a, ok := mi.X.(*ssa.Alloc); ok && strings.HasSuffix(derefType(a.Type()).String(), "io.LimitedReader") {
+					n++
+					key := fmt.Sprintf("%s capped-read#%d", p.FName(fn), n)
+					c.Analysed(p.FName(fn))
+					detect, seen := false, ""
+					for _, ref := range *a.Referrers() {
+						fa, ok := ref.(*ssa.FieldAddr)
+						if !ok {
+							continue
+						}
+						if _, f, _ := p.fieldAddr(fa); f != "N" {
+							continue
+						}
+						for _, r2 := range *fa.Referrers() {
+							ld, ok := r2.(*ssa.UnOp)
+							if !ok {
+								continue
+							}
+							for _, r3 := range *ld.Referrers() {
+								bo, ok := r3.(*ssa.BinOp)
+								if !ok {
+									continue
+								}
+								if k, isK := constInt(bo.Y); isK && bo.X == ssa.Value(ld) {
+									seen = fmt.Sprintf("N %s %d", bo.Op, k)
+									if (bo.Op == token.EQL && k == 0) || (bo.Op == token.LEQ && k >= 0) || (bo.Op == token.LSS && k >= 1) {
+										detect = true
+									}
+								}
+							}
+						}
+					}
+					// or a test of the result's length, as for LimitReader (not examined further here)
+					c.Check(detect, "R09f", key, p.Pos(ci.Pos()), "remaining count tested against zero: "+seen,
+						fmt.Sprintf("the source is slurped through an io.LimitedReader and the only test of what remains of its count is %q, which can never be true (N stops at 0): an input larger than the cap is silently truncated and the truncated stream is what gets uploaded and signed", seen))
+					continue
+				}
+			}
 			lr, ok := stripConv(ci.Common().Args[0]).(*ssa.Call)
 			if !ok || p.calleeName(lr.Common()) != "io.LimitReader" {
 				continue
